@@ -230,8 +230,10 @@ func (n *networkTopology) replicaMap(tokenRing *tokenRing) tokenRingReplicas {
 		}
 
 		replicas := make([]*HostInfo, 0, totalRF)
+		// hosts already chosen as replica or held back in skipped for this token;
+		// with vnodes the same host shows up several times while walking the ring.
+		seenHosts := make(map[*HostInfo]struct{}, totalRF)
 		for j := 0; j < len(tokens) && (len(replicas) < totalRF && !n.haveRF(replicasInDC)); j++ {
-			// TODO: ensure we dont add the same host twice
 			p := i + j
 			if p >= len(tokens) {
 				p -= len(tokens)
@@ -255,7 +257,11 @@ func (n *networkTopology) replicaMap(tokenRing *tokenRing) tokenRingReplicas {
 			} else if _, ok := dcRacks[dc][rack]; !ok {
 				// dont know about this rack
 				continue
+			} else if _, ok := seenHosts[h]; ok {
+				// another token of a host we have already considered
+				continue
 			}
+			seenHosts[h] = struct{}{}
 
 			racks := seenDCRacks[dc]
 			if _, ok := racks[rack]; ok && len(racks) == len(dcRacks[dc]) {
